@@ -265,6 +265,7 @@ inductive Bookkeeping where
   | latestSeed (cp tag : Bytes) (fields : List Bytes)     -- HSET <latest> … (namespace seed)
   | latestDel (cp tag : Bytes)                            -- DEL <latest> (namespace cleanup)
   | rootDel (cp : Bytes)                                  -- DEL <cp> / <cp>:frontier (cleanup)
+  | frontierDel (cp : Bytes)                              -- DEL <cp>:frontier (a start that falls back to the root checkpoint drops the snapshot)
 
 def Bookkeeping.toCmd : Bookkeeping → Cmd
   | .frontierSave cp fields => ⟨wHset, Gen.frontierKey cp :: fields⟩
@@ -278,6 +279,7 @@ def Bookkeeping.toCmd : Bookkeeping → Cmd
   | .latestSeed cp tag fields => ⟨wHset, Gen.latestKey cp tag :: fields⟩
   | .latestDel cp tag => ⟨wDel, [Gen.latestKey cp tag]⟩
   | .rootDel cp => ⟨wDel, [cp, Gen.frontierKey cp]⟩
+  | .frontierDel cp => ⟨wDel, [Gen.frontierKey cp]⟩
 
 /-- the checkpoint names the tool generates: `redis-gunyu-checkpoint…`,
     brace-free (`NewBisyncCheckpointName`: prefix + ":" + hex) -/
